@@ -62,7 +62,7 @@ func (a1 jsonMultiset) diff(
 	strategy patchStrategy,
 ) Diff {
 	d := make(Diff, 0)
-	a2, ok := n.(jsonMultiset)
+	a2, ok := dispatch(n, options).(jsonMultiset)
 	if !ok {
 		// Different types
 		var e DiffElement
